@@ -797,6 +797,13 @@ class _R2Client(Client):
         ids = {x.get("referencedDecl", {}).get("id") for x in walk(node)
                if x.get("kind") == "DeclRefExpr" and x.get("referencedDecl", {}).get("kind") == "VarDecl"}
         ids.discard(None)
+        # output parameters emptied on this path: X.Clear() / X.clear() / X.resize(0)
+        for x in walk(node):
+            if x.get("kind") == "CXXMemberCallExpr" and self.eng.db.callee(x)[0] in ("Clear", "clear"):
+                mb = self.eng.db.member_base(x)
+                m0 = strip(mb) if mb is not None else {}
+                if m0.get("kind") == "DeclRefExpr" and m0.get("referencedDecl", {}).get("kind") == "ParmVarDecl":
+                    ids.add("cleared:%s" % m0["referencedDecl"].get("id"))
         return touched | ids if ids else touched
 
     def _stmt1(self, node, x):
@@ -850,6 +857,14 @@ class _R2Client(Client):
         if not ks:
             if st == "dirty" and not self.read_elsewhere:
                 self.swallows = True
+            # a function that reports through an output parameter returns the *empty* result on the error path: the parameter has
+            # been emptied on every path that reaches this return with the error known
+            if st == "tested":
+                for p0 in self.func.params:
+                    t = qt(p0) or ""
+                    if t.endswith("&") and not t.startswith("const") and re.search(r'(PolyTree|PolyPath|Paths|Path)(64|D)?\b', t):
+                        if ("cleared:%s" % p0.get("id")) not in touched and not any(b[0] is node for b in self.bad):
+                            self.bad.append((node, "`return` leaving the output parameter '%s' as the caller passed it in (not emptied on this path)" % p0.get("name")))
             return
         rv = strip(ks[0])
         while rv.get("kind") == "CXXConstructExpr" and len(kids(rv)) == 1 and dqt(strip(kids(rv)[0])).replace("const ", "") == dqt(rv):
